@@ -33,7 +33,7 @@ namespace ilp {
 
 struct Row { ZVec a; ZZ b; bool eq; Row() : eq(false) {} };   // a.x <= b   or   a.x == b   (integer data)
 enum St { INFEAS = 0, OPT = 1, CAP = 2 };
-struct Stats { unsigned long ilps, nodes, caps, unbounded; Stats() : ilps(0), nodes(0), caps(0), unbounded(0) {} };
+struct Stats { unsigned long ilps, nodes, caps, unbounded, row_branchings; Stats() : ilps(0), nodes(0), caps(0), unbounded(0), row_branchings(0) {} };
 static Stats& stats() { static Stats s; return s; }
 
 static ZZ fdiv(const ZZ& a, const ZZ& b) { ZZ q; mpz_fdiv_q(q.get_mpz_t(), a.get_mpz_t(), b.get_mpz_t()); return q; }
@@ -82,33 +82,43 @@ static bool eliminate(int n, const std::vector<Row>& rows, ZVec& x0, std::vector
 }
 
 // Minimise obj.x over the integer points of rows. (The caller puts x >= 0 among the rows.)
-static St ilp_min(int n, const std::vector<Row>& rows, const ZVec& obj, ZZ& value, ZVec& x, unsigned long node_cap) {
+// 1. equalities are eliminated exactly over the integers; 2. branch & bound on the remaining lattice coordinates
+// (per-coordinate bounds are merged, so every LP stays small); 3. when that does not finish (thin unbounded slabs,
+// the classic parity obstruction) the search branches on the integer value of a constraint row whose range over the
+// relaxation is finite: each such value is a new equality, so the dimension drops and the recursion ends.
+static St ilp_min(int n, const std::vector<Row>& rows, const ZVec& obj, ZZ& value, ZVec& x, unsigned long node_cap, int depth = 0) {
   ++stats().ilps;
   ZVec x0; std::vector<ZVec> K; int k = 0;
   if (!eliminate(n, rows, x0, K, k)) return INFEAS;
-  ref::Sys base;
+  ref::Sys base; std::vector<int> base_row;
   for (size_t i = 0; i < rows.size(); ++i) if (!rows[i].eq) {
     ZZ h = rows[i].b - dotz(rows[i].a, x0);
     Vec g(k); bool zero = true;
     for (int c = 0; c < k; ++c) { ZZ s = 0; for (int q = 0; q < n; ++q) if (rows[i].a[q] != 0) s += rows[i].a[q] * K[q][c]; g[c] = Q(s); if (s != 0) zero = false; }
     if (zero) { if (h < 0) return INFEAS; continue; }
-    base.push_back(Con(g, Q(h), ref::LE));
+    base.push_back(Con(g, Q(h), ref::LE)); base_row.push_back(i);
   }
   if (k == 0) { value = dotz(obj, x0); x = x0; return OPT; }
   Vec negc(k); ZZ c0 = dotz(obj, x0);
   for (int c = 0; c < k; ++c) { ZZ s = 0; for (int q = 0; q < n; ++q) if (obj[q] != 0) s += obj[q] * K[q][c]; negc[c] = Q(-s); }
-  struct Bnd { int i; bool upper; ZZ v; };
-  std::vector<std::vector<Bnd> > stack(1);
-  bool have = false; ZZ best; ZVec bestt; unsigned long nodes = 0;
+  struct Box { std::vector<char> hl, hu; ZVec lo, up; };
+  Box root; root.hl.assign(k, 0); root.hu.assign(k, 0); root.lo.assign(k, ZZ(0)); root.up.assign(k, ZZ(0));
+  std::vector<Box> stack(1, root);
+  bool have = false, capped = false; ZZ best; ZVec bestt; unsigned long nodes = 0;
   while (!stack.empty()) {
-    std::vector<Bnd> nd = stack.back(); stack.pop_back();
+    Box nd = stack.back(); stack.pop_back();
     ++stats().nodes;
-    if (++nodes > node_cap) { ++stats().caps; return CAP; }
-    ref::Sys sys = base;
-    for (size_t b = 0; b < nd.size(); ++b) { Vec a(k); a[nd[b].i] = nd[b].upper ? 1 : -1; sys.push_back(Con(a, Q(nd[b].upper ? nd[b].v : ZZ(-nd[b].v)), ref::LE)); }
+    if (++nodes > node_cap) { capped = true; break; }
+    ref::Sys sys = base; bool empty = false;
+    for (int c = 0; c < k; ++c) {
+      if (nd.hl[c] && nd.hu[c] && nd.lo[c] > nd.up[c]) empty = true;
+      if (nd.hu[c]) { Vec a(k); a[c] = 1; sys.push_back(Con(a, Q(nd.up[c]), ref::LE)); }
+      if (nd.hl[c]) { Vec a(k); a[c] = -1; sys.push_back(Con(a, Q(ZZ(-nd.lo[c])), ref::LE)); }
+    }
+    if (empty) continue;
     ref::LPResult r = ref::lp_max_closed(k, sys, negc);
     if (r.status == ref::INFEASIBLE) continue;
-    if (r.status == ref::UNBOUNDED) { ++stats().unbounded; ++stats().caps; return CAP; }
+    if (r.status == ref::UNBOUNDED) { ++stats().unbounded; capped = true; break; }
     Q val = -r.value;
     ZZ lb; mpz_cdiv_q(lb.get_mpz_t(), val.get_num_mpz_t(), val.get_den_mpz_t());
     if (have && lb >= best) continue;
@@ -116,20 +126,51 @@ static St ilp_min(int n, const std::vector<Row>& rows, const ZVec& obj, ZZ& valu
     for (int c = 0; c < k; ++c) if (r.x[c].get_den() != 1) { fr = c; break; }
     if (fr < 0) { have = true; best = lb; bestt.assign(k, ZZ(0)); for (int c = 0; c < k; ++c) bestt[c] = r.x[c].get_num(); continue; }
     ZZ fl; mpz_fdiv_q(fl.get_mpz_t(), r.x[fr].get_num_mpz_t(), r.x[fr].get_den_mpz_t());
-    std::vector<Bnd> up = nd, dn = nd;
-    Bnd bu = { fr, false, fl + 1 }; up.push_back(bu);
-    Bnd bd = { fr, true, fl }; dn.push_back(bd);
+    Box up = nd, dn = nd;
+    up.hl[fr] = 1; up.lo[fr] = fl + 1;
+    dn.hu[fr] = 1; dn.up[fr] = fl;
     stack.push_back(up); stack.push_back(dn);
   }
+  if (!capped) {
+    if (!have) return INFEAS;
+    x = x0;
+    for (int q = 0; q < n; ++q) for (int c = 0; c < k; ++c) x[q] += K[q][c] * bestt[c];
+    value = best + c0;
+    return OPT;
+  }
+  // fallback: branch on the value of the constraint row with the smallest finite range over the relaxation
+  ++stats().row_branchings;
+  if (depth > n + 1) { ++stats().caps; return CAP; }
+  int pick = -1; ZZ plo, phi, prange;
+  for (size_t bi = 0; bi < base.size(); ++bi) {
+    ref::LPResult r = ref::lp_max_closed(k, base, [&]() { Vec m(k); for (int c = 0; c < k; ++c) m[c] = -base[bi].a[c]; return m; }());   // max of -(g.t)  =  -min(g.t)
+    if (r.status == ref::INFEASIBLE) return INFEAS;
+    if (r.status != ref::OPTIMAL) continue;
+    Q mn = -r.value; ZZ lo; mpz_cdiv_q(lo.get_mpz_t(), mn.get_num_mpz_t(), mn.get_den_mpz_t());
+    ZZ hi; mpz_fdiv_q(hi.get_mpz_t(), base[bi].b.get_num_mpz_t(), base[bi].b.get_den_mpz_t());
+    if (lo > hi) return INFEAS;
+    ZZ range = hi - lo;
+    if (pick < 0 || range < prange) { pick = bi; plo = lo; phi = hi; prange = range; }
+  }
+  if (pick < 0 || prange > 40) { ++stats().caps; return CAP; }
+  const Row& pr = rows[base_row[pick]];
+  ZZ off = dotz(pr.a, x0);           // a.x = off + g.t
+  have = false; bool sub_cap = false;
+  for (ZZ w = plo; w <= phi; ++w) {
+    std::vector<Row> r2 = rows; Row e; e.a = pr.a; e.b = w + off; e.eq = true; r2.push_back(e);
+    ZZ v; ZVec xx;
+    St s = ilp_min(n, r2, obj, v, xx, node_cap, depth + 1);
+    if (s == CAP) { sub_cap = true; continue; }
+    if (s == OPT && (!have || v < best)) { have = true; best = v; x = xx; }
+  }
+  if (sub_cap) { ++stats().caps; return CAP; }
   if (!have) return INFEAS;
-  x = x0;
-  for (int q = 0; q < n; ++q) for (int c = 0; c < k; ++c) x[q] += K[q][c] * bestt[c];
-  value = best + c0;
+  value = best;
   return OPT;
 }
 
 // Lexicographic minimum of the integer points of rows (sequential minimisation).
-static St lexmin(int n, std::vector<Row> rows, ZVec& x, unsigned long node_cap = 400) {
+static St lexmin(int n, std::vector<Row> rows, ZVec& x, unsigned long node_cap = 60) {
   x.assign(n, ZZ(0));
   ZVec w;
   for (int j = 0; j < n; ++j) {
@@ -141,7 +182,7 @@ static St lexmin(int n, std::vector<Row> rows, ZVec& x, unsigned long node_cap =
   if (n > 0) x = w;
   return OPT;
 }
-static St feasible(int n, const std::vector<Row>& rows, ZVec& x, unsigned long node_cap = 400) {
+static St feasible(int n, const std::vector<Row>& rows, ZVec& x, unsigned long node_cap = 60) {
   ZVec obj(n); ZZ v; x.assign(n, ZZ(0));
   if (n == 0) { for (size_t i = 0; i < rows.size(); ++i) if (rows[i].eq ? rows[i].b != 0 : rows[i].b < 0) return INFEAS; return OPT; }
   return ilp_min(n, rows, obj, v, x, node_cap);
@@ -894,10 +935,11 @@ static void run_case(uint64_t) {
       Verdict v = judge_solve(S, R, *so);
       if (v.what == "harness") return;
       if (v.bad) {
-        std::string key = "C07.incremental_vs_fresh." + S.op + "." + v.what;
+        std::string coarse = v.what.find("malformed") != std::string::npos ? "malformed_tree" : v.what.find("status.") != std::string::npos ? "status" : "wrong_answer";
+        std::string key = "C07.incremental_vs_fresh." + S.op + "." + coarse;
         const SolveOut* prev = find_solve(out[s], si - 1, false);     // triage class: what the tree looked like before the update
         std::string pc = !prev ? "prior-unknown" : prev->status == 0 ? "prior-unfeasible" : prev->shape.find("A0") == std::string::npos ? "prior-tree-has-artificials" : prev->shape.find("D0") == std::string::npos ? "prior-tree-has-decisions" : "prior-tree-plain";
-        key += ":" + pc; if (!v.cls.empty()) key += "," + v.cls; hx::violation(key, strat_name(s) + " | the fresh problem is right, the incrementally updated one is not | " + v.detail); return; }
+        key += ":" + pc; v.detail = "[" + v.what + (v.cls.empty() ? "" : ":" + v.cls) + "] " + v.detail; hx::violation(key, strat_name(s) + " | the fresh problem is right, the incrementally updated one is not | " + v.detail); return; }
     }
     // differential where the reference was inconclusive
     for (size_t vi = 0; vi < R.vals.size(); ++vi) if (R.vals[vi].ctx && R.vals[vi].st == ilp::CAP) {
@@ -916,6 +958,6 @@ int main(int argc, char** argv) {
   signal(SIGPIPE, SIG_IGN);
   return hx::main_loop(argc, argv, run_case, []() {
     hx::count("lp_solves", ref::lp_counters().solves); hx::count("lp_pivots", ref::lp_counters().pivots);
-    hx::count("ilp.solves", ilp::stats().ilps); hx::count("ilp.nodes", ilp::stats().nodes); hx::count("ilp.caps", ilp::stats().caps);
+    hx::count("ilp.solves", ilp::stats().ilps); hx::count("ilp.nodes", ilp::stats().nodes); hx::count("ilp.caps", ilp::stats().caps); hx::count("ilp.row_branchings", ilp::stats().row_branchings);
   });
 }
